@@ -70,8 +70,9 @@ structure Quiet (st st' : St) : Prop where
   state : st'.state = st.state ∨ st'.state ≠ .receiving
   cacheSize : st'.cacheSize = st.cacheSize
   maxSize : st'.maxSize = st.maxSize
+  toi : st'.toi = st.toi
 
-theorem Quiet.refl (st : St) : Quiet st st := ⟨rfl, rfl, rfl, rfl, rfl, rfl, .inl rfl, rfl, rfl⟩
+theorem Quiet.refl (st : St) : Quiet st st := ⟨rfl, rfl, rfl, rfl, rfl, rfl, .inl rfl, rfl, rfl, rfl⟩
 
 theorem Inv.quiet {st st' : St} (h : Inv st) (q : Quiet st st') : Inv st' := by
   constructor
@@ -163,13 +164,14 @@ structure SameSt (st st' : St) : Prop where
   nbBlocks : st'.nbBlocks = st.nbBlocks
   maxSize : st'.maxSize = st.maxSize
   cacheSize : st'.cacheSize = st.cacheSize
+  cl : st'.cl = st.cl
 
-theorem SameSt.refl (st : St) : SameSt st st := ⟨rfl, rfl, rfl, rfl, rfl, rfl, rfl, rfl, rfl, rfl, rfl, rfl, rfl, rfl⟩
+theorem SameSt.refl (st : St) : SameSt st st := ⟨rfl, rfl, rfl, rfl, rfl, rfl, rfl, rfl, rfl, rfl, rfl, rfl, rfl, rfl, rfl⟩
 theorem SameSt.trans {a b c : St} (h1 : SameSt a b) (h2 : SameSt b c) : SameSt a c :=
   ⟨h2.md5Check.trans h1.md5Check, h2.md5.trans h1.md5, h2.tl.trans h1.tl, h2.cenc.trans h1.cenc,
    h2.blocks.trans h1.blocks, h2.nbAlloc.trans h1.nbAlloc, h2.totalAlloc.trans h1.totalAlloc,
    h2.oti.trans h1.oti, h2.aLarge.trans h1.aLarge, h2.aSmall.trans h1.aSmall, h2.nbALarge.trans h1.nbALarge,
-   h2.nbBlocks.trans h1.nbBlocks, h2.maxSize.trans h1.maxSize, h2.cacheSize.trans h1.cacheSize⟩
+   h2.nbBlocks.trans h1.nbBlocks, h2.maxSize.trans h1.maxSize, h2.cacheSize.trans h1.cacheSize, h2.cl.trans h1.cl⟩
 
 
 /-- `st'` is `st` after some `write` calls (and block-writer bookkeeping): everything the invariant reads is unchanged,
@@ -184,13 +186,16 @@ structure Wr (st st' : St) : Prop where
   ps : pstateOf st.out = some .opened → pstateOf st'.out = some .opened
   same : SameSt st st'
   nc : noComplete st.out → noComplete st'.out
+  toi : st'.toi = st.toi
+  grow : ∃ l, st'.out = l ++ st.out
 
-theorem Wr.refl (st : St) : Wr st st := ⟨rfl, rfl, rfl, rfl, rfl, id, id, SameSt.refl _, id⟩
+theorem Wr.refl (st : St) : Wr st st := ⟨rfl, rfl, rfl, rfl, rfl, id, id, SameSt.refl _, id, rfl, ⟨[], rfl⟩⟩
 
 theorem Wr.trans {a b c : St} (h1 : Wr a b) (h2 : Wr b c) : Wr a c :=
   ⟨h2.writer.trans h1.writer, h2.cache.trans h1.cache, h2.state.trans h1.state, h2.off.trans h1.off,
    h2.fdt.trans h1.fdt, fun h => h2.bw (h1.bw h), fun h => h2.ps (h1.ps h), h1.same.trans h2.same,
-   fun h => h2.nc (h1.nc h)⟩
+   fun h => h2.nc (h1.nc h), h2.toi.trans h1.toi,
+   by obtain ⟨l1, e1⟩ := h1.grow; obtain ⟨l2, e2⟩ := h2.grow; exact ⟨l2 ++ l1, by rw [e2, e1, List.append_assoc]⟩⟩
 
 theorem Inv.wr {st st' : St} (h : Inv st) (ho : st.writer = some .opened) (w : Wr st st') :
     Inv st' ∧ st'.writer = some .opened := by
@@ -208,7 +213,7 @@ theorem Inv.wr {st st' : St} (h : Inv st) (ho : st.writer = some .opened) (w : W
   · rw [w.writer, w.fdt]; exact h.fdt
 
 theorem wr_wWrite (P : Params) (st : St) (sbn : Nat) (d : Bytes) : Wr st (wWrite P st sbn d).1 := by
-  refine ⟨rfl, rfl, rfl, rfl, rfl, id, ?_, ⟨rfl, rfl, rfl, rfl, rfl, rfl, rfl, rfl, rfl, rfl, rfl, rfl, rfl, rfl⟩, ?_⟩
+  refine ⟨rfl, rfl, rfl, rfl, rfl, id, ?_, ⟨rfl, rfl, rfl, rfl, rfl, rfl, rfl, rfl, rfl, rfl, rfl, rfl, rfl, rfl, rfl⟩, ?_, rfl, ⟨[_], rfl⟩⟩
   · intro h
     simp [wWrite, pstateOf_cons, evOf, h, WriterProto.step]
   · intro h; simpa [wWrite, noComplete] using h
@@ -263,7 +268,7 @@ theorem wr_decodeWritePkt (P : Params) (st : St) (w : BW) (pkt : Bytes) {st' : S
   · exact wr_dwLoop _ _ _ _ _ _ _ h
 
 theorem wr_setBw (st : St) (w : BW) : Wr st { st with bw := some w } :=
-  ⟨rfl, rfl, rfl, rfl, rfl, fun _ => rfl, id, ⟨rfl, rfl, rfl, rfl, rfl, rfl, rfl, rfl, rfl, rfl, rfl, rfl, rfl, rfl⟩, id⟩
+  ⟨rfl, rfl, rfl, rfl, rfl, fun _ => rfl, id, ⟨rfl, rfl, rfl, rfl, rfl, rfl, rfl, rfl, rfl, rfl, rfl, rfl, rfl, rfl, rfl⟩, id, rfl, ⟨[], rfl⟩⟩
 
 theorem wr_bwData (P : Params) (st : St) (w : BW) (data : Bytes) {st' : St} {w' : BW} {b : Bool}
     (h : bwData P st w data = .ok (st', w', b)) : Wr st st' := by
@@ -333,7 +338,9 @@ theorem inv_finishObject {st : St} (h : Inv st) (ho : st.writer = some .opened) 
     · simpa using inv_error false h (Or.inr ho)
     · simpa using inv_complete h (Or.inr ho)
   unfold finishObject
-  exact key _
+  split
+  · simpa using key false
+  · exact key _
 
 theorem inv_writeLoop (P : Params) (fuel : Nat) (st : St) (sbn : Nat) {st' : St} {b : Bool}
     (hi : Inv st) (ho : st.writer = some .opened)
@@ -395,11 +402,11 @@ theorem inv_writeBlocks (P : Params) (st : St) (sbn : Nat) {st' : St} {b : Bool}
 
 theorem quiet_growBlocks (st : St) (off : Nat) : Quiet st (growBlocks st off) := by
   unfold growBlocks; split
-  · exact ⟨rfl, rfl, rfl, rfl, rfl, rfl, .inl rfl, rfl, rfl⟩
+  · exact ⟨rfl, rfl, rfl, rfl, rfl, rfl, .inl rfl, rfl, rfl, rfl⟩
   · exact Quiet.refl _
 
 theorem quiet_setError (st : St) : Quiet st { st with state := .error } :=
-  ⟨rfl, rfl, rfl, rfl, rfl, rfl, .inr (by simp), rfl, rfl⟩
+  ⟨rfl, rfl, rfl, rfl, rfl, rfl, .inr (by simp), rfl, rfl, rfl⟩
 
 theorem quiet_allocBlock (P : Params) (st : St) (o : Oti) (tl : Nat) (pid : PayloadId) (blk : Block)
     {st' : St} {r : Option Block} (h : allocBlock P st o tl pid blk = .ok (st', r)) : Quiet st st' := by
@@ -417,11 +424,11 @@ theorem quiet_allocBlock (P : Params) (st : St) (o : Oti) (tl : Nat) (pid : Payl
           · simp at h; rw [← h.1]; exact quiet_setError _
           · split at h
             · simp at h
-            · simp at h; rw [← h.1]; exact ⟨rfl, rfl, rfl, rfl, rfl, rfl, .inl rfl, rfl, rfl⟩
+            · simp at h; rw [← h.1]; exact ⟨rfl, rfl, rfl, rfl, rfl, rfl, .inl rfl, rfl, rfl, rfl⟩
 
 theorem Quiet.trans {a b c : St} (h1 : Quiet a b) (h2 : Quiet b c) : Quiet a c := by
   refine ⟨h2.writer.trans h1.writer, h2.out.trans h1.out, h2.cache.trans h1.cache, h2.bw.trans h1.bw,
-    h2.off.trans h1.off, h2.fdt.trans h1.fdt, ?_, h2.cacheSize.trans h1.cacheSize, h2.maxSize.trans h1.maxSize⟩
+    h2.off.trans h1.off, h2.fdt.trans h1.fdt, ?_, h2.cacheSize.trans h1.cacheSize, h2.maxSize.trans h1.maxSize, h2.toi.trans h1.toi⟩
   cases h2.state with
   | inr e => exact .inr e
   | inl e =>
@@ -474,7 +481,7 @@ theorem inv_pushToBlock2 (P : Params) (st : St) (p : Pkt) {st' : St} {b : Bool}
                     split at h
                     · simp at h
                     · have q2 : Quiet st { ‹St› with blocks := (‹St›).blocks.set (‹PayloadId›.sbn - st.blocksOffset) ‹Block› } :=
-                        q1.trans ⟨rfl, rfl, rfl, rfl, rfl, rfl, .inl rfl, rfl, rfl⟩
+                        q1.trans ⟨rfl, rfl, rfl, rfl, rfl, rfl, .inl rfl, rfl, rfl, rfl⟩
                       split at h
                       · have := inv_writeBlocks _ _ _ (hi.quiet q2) h
                         exact ⟨this.1, fun hf => Or.inr (this.2.1 hf)⟩
@@ -569,7 +576,7 @@ theorem inv_initBlocksPartitioning (st : St) {st' : St}
     · split at h
       · simp at h
       · simp at h; subst h
-        exact ⟨hi.quiet ⟨rfl, rfl, rfl, rfl, rfl, rfl, .inl rfl, rfl, rfl⟩, ⟨rfl, rfl, rfl, rfl, rfl, rfl, .inl rfl, rfl, rfl⟩⟩
+        exact ⟨hi.quiet ⟨rfl, rfl, rfl, rfl, rfl, rfl, .inl rfl, rfl, rfl, rfl⟩, ⟨rfl, rfl, rfl, rfl, rfl, rfl, .inl rfl, rfl, rfl, rfl⟩⟩
     · simp at h; rw [← h]; exact ⟨hi, Quiet.refl _⟩
 
 theorem inv_openWriter (pl : Plan) (st : St) (tl : Nat) (cenc : Cenc) {st' : St}
@@ -614,9 +621,9 @@ theorem inv_initObjectWriter (P : Params) (st : St) {st' : St}
         simp [pstateOf_cons, evOf, hw, absW, hps]
       split at h
       · simp at h; subst h
-        exact hi2.quiet ⟨rfl, rfl, rfl, rfl, rfl, rfl, .inr (by simp), rfl, rfl⟩
+        exact hi2.quiet ⟨rfl, rfl, rfl, rfl, rfl, rfl, .inr (by simp), rfl, rfl, rfl⟩
       · simp at h; subst h
-        exact hi2.quiet ⟨rfl, rfl, rfl, rfl, rfl, rfl, .inr (by simp), rfl, rfl⟩
+        exact hi2.quiet ⟨rfl, rfl, rfl, rfl, rfl, rfl, .inr (by simp), rfl, rfl, rfl⟩
       · exact inv_openWriter _ _ _ _ hi2 hw (by simp [hfid]) h
     · simp at h; rw [← h]; exact hi
 
@@ -625,14 +632,14 @@ theorem inv_initObjectWriter (P : Params) (st : St) {st' : St}
 theorem quiet_setCencFromPkt (st : St) (p : Pkt) : Quiet st (setCencFromPkt st p) := by
   unfold setCencFromPkt; split
   · exact Quiet.refl _
-  · exact ⟨rfl, rfl, rfl, rfl, rfl, rfl, .inl rfl, rfl, rfl⟩
+  · exact ⟨rfl, rfl, rfl, rfl, rfl, rfl, .inl rfl, rfl, rfl, rfl⟩
 
 theorem quiet_setOtiFromPkt (st : St) (p : Pkt) : Quiet st (setOtiFromPkt st p) := by
   unfold setOtiFromPkt; split
   · exact Quiet.refl _
   · split
     · exact Quiet.refl _
-    · exact ⟨rfl, rfl, rfl, rfl, rfl, rfl, .inl rfl, rfl, rfl⟩
+    · exact ⟨rfl, rfl, rfl, rfl, rfl, rfl, .inl rfl, rfl, rfl, rfl⟩
 
 theorem inv_cachePkt (st : St) (p : Pkt) (hi : Inv st) (hl : Live st) :
     Inv (cachePkt st p).1 ∧ Live (cachePkt st p).1 := by
